@@ -313,10 +313,19 @@ def build_trigger(rec, state):
         trig = T.TimeRangeTrigger(T.TimeRange(conv(s), conv(e)), action, **kw)
     elif k == "ranges":
         trig = T.TimeRangesTrigger([T.TimeRange(conv(s), conv(e)) for s, e in spec["ranges"]], action, **kw)
-    elif k == "period":
-        trig = T.PeriodTrigger(spec["deltas"][0], action, spec["immediate"], spec["pending"], **kw)
     else:
-        trig = T.PeriodsTrigger(list(spec["deltas"]), action, spec["immediate"], spec["pending"], **kw)
+        # arguments equal to the documented defaults (not immediate, no delay) are left out: the defaults are part of the
+        # specification; otherwise they go positionally or by keyword
+        cls = T.PeriodTrigger if k == "period" else T.PeriodsTrigger
+        first = spec["deltas"][0] if k == "period" else list(spec["deltas"])
+        default = (not spec["immediate"]) and not spec["pending"]
+        style = (state.get("argstyle", 0) + len(rec.calls) + len(spec["deltas"])) % 3
+        if default and style != 0:
+            trig = cls(first, action, **kw)
+        elif style == 1:
+            trig = cls(first, action, trigger_immediately=spec["immediate"], pending=spec["pending"], **kw)
+        else:
+            trig = cls(first, action, spec["immediate"], spec["pending"], **kw)
     # attribution wrappers (delegate unchanged)
     real_when, real_out = trig.when, trig.is_out_date
 
